@@ -10,7 +10,7 @@ def c02Sources : List (String × String) := [
   ("tensordict/utils.py:_get_shape_from_args", "cb8b4fef609dd9a6"),
   ("tensordict/_td.py:TensorDict._transpose", "15b41cdb7c01674a"),
   ("tensordict/_td.py:TensorDict._permute", "4ab8db1b70ca2951"),
-  ("tensordict/_td.py:TensorDict._squeeze", "21c84e4d426ec0d9"),
+  ("tensordict/_td.py:TensorDict._squeeze", "79b131471266a713"),
   ("tensordict/_td.py:TensorDict._unsqueeze", "65503ec060306548"),
   ("tensordict/_td.py:TensorDict._view", "d57743cbec5bb5f2"),
   ("tensordict/_td.py:TensorDict.reshape", "0b5890f1c218ff0a"),
@@ -32,7 +32,7 @@ def c02Sources : List (String × String) := [
   ("tensordict/base.py:TensorDictBase.repeat", "7d098c6e0d06a307"),
   ("tensordict/base.py:TensorDictBase.gather", "29ccddf86037f3c2"),
   ("tensordict/_torch_func.py:_gather", "cd681bf4d41dc1ca"),
-  ("tensordict/_torch_func.py:_stack", "11e01a46650415d2"),
+  ("tensordict/_torch_func.py:_stack", "ea4d220b8c94a36d"),
   ("tensordict/_torch_func.py:_cat", "dac0d495e3f1b6b1"),
   ("tensordict/_torch_func.py:_split", "062a5b309b7a7a6b"),
   ("tensordict/_torch_func.py:_unbind", "a0481eab0812d275")
